@@ -472,7 +472,8 @@ class ASTSimplifyMapper(ASTIdentityMapper):
 
             # Expand any inner Blocks.
             if isinstance(next_child, Block):
-                children_queue.extendleft(next_child.children)
+                # extendleft() inserts one by one, i.e. in reverse.
+                children_queue.extendleft(reversed(next_child.children))
                 continue
 
             # Merge adjacent conditionals.
